@@ -245,3 +245,13 @@ func Reproductions(env *Env, cfg *Config, fs []*Found, n int) []int {
 	wg.Wait()
 	return hits
 }
+
+// Sweep runs every cache-opening command of the CLI once in each of a few prepared situations
+// (events of the prefix), judged by the same oracles.
+func Sweep(env *Env, situations [][]string, commands []string) (exs []*Exploration) {
+	for _, prefix := range situations {
+		cfg := &Config{Name: "command sweep after " + fmt.Sprint(prefix), Holders: 1, Prefix: prefix, CLI: commands, Depth: 1}
+		exs = append(exs, Explore(env, cfg, time.Now().Add(time.Hour)))
+	}
+	return exs
+}
